@@ -89,14 +89,16 @@ OBS = {
 
 
 def run_for(scratch, tier, prop):
-    return run_unit(scratch, tier)
+    return run_unit(scratch, tier, prop)
 
 
-def run_unit(scratch, tier):
+def run_unit(scratch, tier, prop=None):
     crate, meta = build(scratch)
     p = os.path.join(crate, "src/harness_vm.rs")
     write(p, read(p) + "\n#[kani::proof]\n#[kani::unwind(5)]\nfn canary_must_fail() {\n    let mut t = thread();\n    {\n        let mut vm = VmCore { ip: 0, sp: 0, thread: &mut t };\n        vm.gc_collect();\n    }\n    assert!(unsafe { SEEN.calls } == 0, \"canary: must be reported as failing\");\n}\n")
-    specs = [dict(name=n, kind=o["kind"], contract=o["contract"], functions=o["functions"], bound=o.get("bound")) for n, o in OBS.items()]
+    # C15 (stop-the-world protocol) is served by the Heap::mark / mark_and_sweep_new obligations only
+    specs = [dict(name=n, kind=o["kind"], contract=o["contract"], functions=o["functions"], bound=o.get("bound")) for n, o in OBS.items()
+             if prop != "C15" or n.startswith("mark_")]
     specs.append(dict(name="canary_must_fail", kind="canary", contract="assert that must fail"))
     obs, cmd, out = kani.run_harnesses(crate, specs, NAME, "roots", jobs=8, timeout=3000, harness_timeout="10m",
                                        extra_flags=["--no-assertion-reach-checks", "--no-overflow-checks"])
